@@ -349,7 +349,7 @@ func (in *Interp) concretise(t *term.T, what string) uint64 {
 		models = append(models, sm)
 		excl = in.M.And(excl, in.M.Not(in.M.Eq(t, in.M.BV(v, t.W))))
 		if len(vals) > in.Cfg.ConcCap {
-			in.path.inconclusive(fmt.Sprintf("concretisation cap (%d) exceeded for %s", in.Cfg.ConcCap, what))
+			in.path.inconclusive(fmt.Sprintf("concretisation cap (%d) exceeded for %s at %s", in.Cfg.ConcCap, what, in.callSite()))
 			break
 		}
 	}
